@@ -490,6 +490,12 @@ def run(ctx: Context, rep) -> None:
     # nothing read from the dataset's files / the environment is memoised
     from sa.rules import shared as _shm
     _shm.check_no_memo(ctx, rep, "C09.memo")
+    # every writer writes where the parent will look: the root is resolved
+    # at construction (same check as C20's root part)
+    from sa.rules.c20 import check_root_resolved as _crr9
+    rep.rule("C09.root", "the value self.path keeps is <path>.resolve() on "
+             "every path through DatasetBase.__init__")
+    _crr9(ctx, rep, "C09.root")
 
 _P = "src/sedpack/io/dataset_writing.py"
 _F = "src/sedpack/io/dataset_filler.py"
